@@ -37,6 +37,8 @@ structure Obs where
   pk : Nat := 1             -- scripted: how the function ends abnormally (1 panic(string), 2 panic(error value), 3 runtime.Goexit)
   ek : Nat := 1             -- scripted: class of the error value (1 pointer, 2 wrapped, 3 value-typed, 4 typed nil)
   ep : Nat := 0             -- the public entry point of the user the call went through
+  cx : Nat := 0             -- scripted: the context passed to a ...Ctx entry point (0 Background, 1 far deadline, 2 cancelled)
+  lkerr : Bool := false     -- observed: the call returned the lookup error of its flight (`err=lk`: context.Canceled)
   deriving Repr
 
 def Obs.ran (o : Obs) : Bool := o.runs > 0
@@ -138,8 +140,20 @@ def lcViolations (h : List Obs) : List (Nat × String) :=
   ++ h.filterMap (fun r => (stuckViolation r).map (r.line, ·))
   ++ h.filterMap (fun r => (panicViolation r).map (r.line, ·))
 
+/-- a flight whose lookup fails (`Cfg.lerr`, row g3: `cacheNode.doTake` with a cancelled context) ends with that error for
+its leader and every joiner, and runs no loader. -/
+def lookupErrViolation (h : List Obs) (r : Obs) : Option String :=
+  if !r.lkerr then none
+  else if r.ran then some s!"rm-error: the loader of call {r.id} (key {r.key}) ran although the call returned its flight's lookup error"
+  else if r.val.isSome || r.err.isSome then some s!"rm: call {r.id} returned a lookup error and something else"
+  else if r.cx = 2 then none
+  else if h.any (fun l => l.id ≠ r.id && l.key = r.key && l.cx = 2 && l.lkerr && !l.ran && callsOverlap l r) then none
+  else some (s!"rm-error: call {r.id} (key {r.key}) got a lookup (context) error although neither its own context was cancelled " ++
+             "nor that of an overlapping flight leader it could have joined")
+
 /-- ResourceManager: `serr` = scripted failure of `create`; a successful `create` returns the call's id as instance. -/
 def rmCallViolation (nilJoin : Bool) (inj : List (Nat × Nat)) (h : List Obs) (r : Obs) : Option String :=
+  if r.lkerr then lookupErrViolation h r else
   let created := h.filter fun c => c.key = r.key && c.created
   match inj.lookup r.key with
   | some n =>
